@@ -107,19 +107,27 @@ impl SampleQueueSender {
     /// it is mapped to a typed error by the single real caller.
     #[allow(clippy::result_unit_err)]
     pub fn send(&self, sample: MediaSample) -> Result<(), ()> {
+        #[cfg(rustrtc_verif)]
+        crate::verif_hooks::media::verif_yield(crate::verif_hooks::media::point::SRC_LOCK_PUSH);
         let _push_guard = self.push_lock.lock();
+        #[cfg(rustrtc_verif)]
+        crate::verif_hooks::media::verif_yield(crate::verif_hooks::media::point::SRC_LOAD_CLOSED);
         if self.closed.load(std::sync::atomic::Ordering::Acquire) {
             return Err(());
         }
 
         let sample = match self.queue.push(sample) {
             Ok(()) => {
+                #[cfg(rustrtc_verif)]
+                crate::verif_hooks::media::verif_yield(crate::verif_hooks::media::point::SRC_NOTIFY_ONE);
                 self.notify.notify_one();
                 return Ok(());
             }
             Err(sample) => sample,
         };
 
+        #[cfg(rustrtc_verif)]
+        crate::verif_hooks::media::verif_yield(crate::verif_hooks::media::point::SRC_TRYLOCK_POP);
         let _guard = match self.pop_lock.try_lock() {
             Some(g) => g,
             None => return Ok(()),
@@ -127,19 +135,27 @@ impl SampleQueueSender {
 
         let _ = self.queue.pop();
         if self.queue.push(sample).is_ok() {
+            #[cfg(rustrtc_verif)]
+            crate::verif_hooks::media::verif_yield(crate::verif_hooks::media::point::SRC_NOTIFY_ONE);
             self.notify.notify_one();
         }
         Ok(())
     }
 
     pub fn try_send(&self, sample: MediaSample) -> Result<(), MediaSample> {
+        #[cfg(rustrtc_verif)]
+        crate::verif_hooks::media::verif_yield(crate::verif_hooks::media::point::SRC_LOCK_PUSH);
         let _push_guard = self.push_lock.lock();
+        #[cfg(rustrtc_verif)]
+        crate::verif_hooks::media::verif_yield(crate::verif_hooks::media::point::SRC_LOAD_CLOSED);
         if self.closed.load(std::sync::atomic::Ordering::Acquire) {
             return Err(sample);
         }
 
         match self.queue.push(sample) {
             Ok(()) => {
+                #[cfg(rustrtc_verif)]
+                crate::verif_hooks::media::verif_yield(crate::verif_hooks::media::point::SRC_NOTIFY_ONE);
                 self.notify.notify_one();
                 Ok(())
             }
@@ -150,8 +166,12 @@ impl SampleQueueSender {
 
 impl Drop for SampleQueueSender {
     fn drop(&mut self) {
+        #[cfg(rustrtc_verif)]
+        crate::verif_hooks::media::verif_yield(crate::verif_hooks::media::point::DROP_STORE_CLOSED);
         self.closed
             .store(true, std::sync::atomic::Ordering::Release);
+        #[cfg(rustrtc_verif)]
+        crate::verif_hooks::media::verif_yield(crate::verif_hooks::media::point::DROP_NOTIFY_WAITERS);
         self.notify.notify_waiters();
     }
 }
@@ -160,9 +180,13 @@ impl SampleQueueReceiver {
     pub async fn recv(&mut self) -> Option<MediaSample> {
         loop {
             {
+                #[cfg(rustrtc_verif)]
+                crate::verif_hooks::media::verif_yield(crate::verif_hooks::media::point::RECV_LOCK_POP);
                 let _guard = self.pop_lock.lock();
                 // Read before `pop`: once closed nothing more is pushed, so an empty queue seen
                 // afterwards is final (reading it after `pop` could miss the last samples).
+                #[cfg(rustrtc_verif)]
+                crate::verif_hooks::media::verif_yield(crate::verif_hooks::media::point::RECV_LOAD_CLOSED);
                 let closed = self.closed.load(std::sync::atomic::Ordering::Acquire);
                 if let Some(sample) = self.queue.pop() {
                     return Some(sample);
@@ -172,8 +196,12 @@ impl SampleQueueReceiver {
                 }
             }
 
+            #[cfg(rustrtc_verif)]
+            crate::verif_hooks::media::verif_yield(crate::verif_hooks::media::point::RECV_NEW_NOTIFIED);
             let notified = self.notify.notified();
             if self.queue.is_empty() && !self.closed.load(std::sync::atomic::Ordering::Acquire) {
+                #[cfg(rustrtc_verif)]
+                crate::verif_hooks::media::verif_yield(crate::verif_hooks::media::point::RECV_AWAIT);
                 notified.await;
             }
         }
@@ -182,8 +210,12 @@ impl SampleQueueReceiver {
 
 impl Drop for SampleQueueReceiver {
     fn drop(&mut self) {
+        #[cfg(rustrtc_verif)]
+        crate::verif_hooks::media::verif_yield(crate::verif_hooks::media::point::RECV_DROP_STORE_CLOSED);
         self.closed
             .store(true, std::sync::atomic::Ordering::Release);
+        #[cfg(rustrtc_verif)]
+        crate::verif_hooks::media::verif_yield(crate::verif_hooks::media::point::RECV_DROP_NOTIFY_WAITERS);
         self.notify.notify_waiters();
     }
 }
@@ -466,4 +498,36 @@ mod tests {
         drop(producer);
         pump.await.unwrap().unwrap();
     }
+}
+
+#[cfg(rustrtc_verif)]
+impl SampleQueueSender {
+    /// Verification hook: is the producer-side lock currently held?
+    pub fn verif_push_locked(&self) -> bool {
+        self.push_lock.is_locked()
+    }
+}
+
+#[cfg(rustrtc_verif)]
+impl SampleQueueReceiver {
+    /// Verification hook: the queue.
+    pub fn verif_queue(&self) -> Arc<SpscRing<MediaSample>> {
+        self.queue.clone()
+    }
+
+    /// Verification hook: the consumer-side lock (shared with the sender).
+    pub fn verif_pop_lock(&self) -> Arc<parking_lot::Mutex<()>> {
+        self.pop_lock.clone()
+    }
+
+    /// Verification hook: the `closed` flag (shared with the sender).
+    pub fn verif_closed_flag(&self) -> Arc<std::sync::atomic::AtomicBool> {
+        self.closed.clone()
+    }
+}
+
+/// Verification hook: the private `sample_queue_channel` constructor.
+#[cfg(rustrtc_verif)]
+pub fn verif_sample_queue_channel(capacity: usize) -> (SampleQueueSender, SampleQueueReceiver) {
+    sample_queue_channel(capacity)
 }
